@@ -15,7 +15,9 @@ F0 = 193.1e12
 # ---- world ---------------------------------------------------------------------------------------------
 # OMS 0: X->Y   OMS 1: Y->X (reverse of 0)   OMS 2: Y->Z (UNUSABLE sub-band)   OMS 3: Z->Y (pre-occupied run)
 N_MIN, N_MAX = -24, 23           # 48 slots; guard band 4 slots on each side
-WORLDS = ['empty', 'preloaded_a', 'preloaded_b', 'tight']
+WORLDS = ['empty', 'preloaded_a', 'preloaded_b', 'tight', 'aligned']
+# 'aligned': the four maps are created with different extents and brought to one grid by align_grids (padding on the left,
+# on the right, on both sides) before the first request
 
 PATHS = [   # (forward oms ids, reverse oms ids)
     ([0], []),
@@ -72,8 +74,22 @@ def make_world(name):
         if i == 2:
             for n in range(14, N_MAX + 1):
                 bitmap[n - N_MIN] = BitmapValue.UNUSABLE
-        oms.update_spectrum(f_min, f_max, existing_spectrum=bitmap)
+        lo, hi = {1: (6, 0), 2: (0, 4), 3: (3, 2)}.get(i, (0, 0)) if name == 'aligned' else (0, 0)
+        own = bitmap[lo:len(bitmap) - hi]
+        # a shorter map keeps its own guard band unusable (as create_oms_bitmap does for the part of the network range that an
+        # OMS does not carry): after the alignment every map then has the same usable limits as the aggregate
+        if lo:
+            own[:4] = [BitmapValue.UNUSABLE] * 4
+        if hi:
+            own[-4:] = [BitmapValue.UNUSABLE] * 4
+        oms.update_spectrum(f_min + lo * GRID, f_max - hi * GRID, existing_spectrum=own)
         oms_list.append(oms)
+    if name == 'aligned':
+        from gnpy.topology.spectrum_assignment import align_grids
+        # a first service is placed before the alignment (as an operator who loads existing services, then aligns)
+        oms_list[1].assign_spectrum(10, 2)
+        oms_list[0].assign_spectrum(10, 2)
+        align_grids(oms_list)
     pre = []
     if name == 'preloaded_a':
         pre = [(3, -16, 2), (3, 10, 2), (0, -4, 2), (1, -4, 2)]
@@ -351,7 +367,7 @@ def run_case(case):
 def main(rep, tier, seed):
     full = list(range(len(REQS)))
     if tier == 'quick':
-        plans = [(3, QUICK_REQS, [WORLDS[seed % len(WORLDS)], WORLDS[(seed + 1) % len(WORLDS)]])]
+        plans = [(3, QUICK_REQS, sorted({WORLDS[seed % 4], WORLDS[(seed + 1) % 4], 'aligned'}))]
     else:
         plans = [(3, full, WORLDS), (4, QUICK_REQS[:9], WORLDS)]
     cases = []
